@@ -127,6 +127,24 @@ def w_plans(idx):
         root.add_namespace(None, "https://eml.ecoinformatics.org/eml-2.2.0")
         root.add_namespace("xsi", "http://www.w3.org/2001/XMLSchema-instance")
         evs.append(record_expand(root, {"items": items, "fault": fault, "namespaces": "default + prefixed, as after from_xml"}))
+        # the same plan with one more element that holds SEVERAL references nodes (to a definition without children and/or to
+        # definitions with several children) between children of its own: "in the place of EACH references node"
+        defs_ = [k for k, it in enumerate(items) if it["kind"] in ("def", "def0")]
+        if defs_ and fault[0] == "none":
+            Node.store.clear()
+            root = build(items, fault, random.Random(i))
+            fam = lambda e: e == "associatedParty"  # noqa: E731 - the referencing element is governed by the same rule as what it references
+            el0 = items[defs_[0]]["el"]
+            same = [k for k in defs_ if fam(items[k]["el"]) == fam(el0)]
+            multi = Node(el0)
+            multi.add_child(Node("zzLeading", content="own-first"))
+            for j in range(2 + i % 2):
+                multi.add_child(Node("references", content=f"id{same[(i + j) % len(same)] + 1}"))
+                if j == 0 and i % 3 == 0:
+                    multi.add_child(Node("zzBetween", content="own-between"))
+            multi.add_child(Node("zzTrailing", content="own-last"))
+            root.add_child(multi)
+            evs.append(record_expand(root, {"items": items, "fault": fault, "extra": "one element holding several references nodes between children of its own"}))
         # the same plan inside a complete eml document that holds one more reference below additionalMetadata/metadata
         # (nothing in the statement exempts metadata content: every references node is expanded)
         defs = [k for k, it in enumerate(items) if it["kind"] in ("def", "def0")]
